@@ -60,8 +60,15 @@ type member struct {
 // runMember explores a member and hands each world to check; bookkeeping of
 // obligations, run failures and budgets is shared.
 func runMember(c *core.Ctx, mb member, rules map[string]bool, budget int, check func(w *fam.World, fm *fam.FileModel) []fam.Issue) {
+	runMemberOpt(c, mb, rules, budget, false, check)
+}
+
+func runMemberOpt(c *core.Ctx, mb member, rules map[string]bool, budget int, sized bool, check func(w *fam.World, fm *fam.FileModel) []fam.Issue) {
 	t0 := time.Now()
 	worlds, complete := fam.Run(c.Prog, mb.cfg, mb.root, budget, nil)
+	for _, w := range worlds {
+		w.SizedCheck = sized
+	}
 	key := mb.name + " " + fam.CfgString(mb.cfg)
 	if os.Getenv("VCHECK_TIMING") != "" {
 		defer func() {
